@@ -297,9 +297,20 @@ class C17(Prop):
                     viol.append(dict(what=e, input=case_line(case), observed=out, finding=fid))
         else:
             n, viol = self._viol
+        # context level: one CallPatch object inserted at several places; the convention description is not shared
+        from harness import ctxlevel
+        rndc = C.rng("c17-ctx" + ("-boost" if boosted else ""))
+        viol = list(viol)
+        for _ in range(300 if boosted else 60):
+            n += 1
+            w = ctxlevel.shared_patch_insertions(rndc, call_patch=True)
+            if w:
+                viol.append(dict(what=w, input="ctxlevel.shared_patch_insertions(call_patch=True)", observed="", finding=None))
+        for w in ctxlevel.convention_is_not_shared():
+            viol.append(dict(what=w, input="ctxlevel.convention_is_not_shared()", observed="", finding=None))
         seen, uniq = set(), []
         for v in viol:
-            k = re.sub(r"\d+", "N", v["what"])
+            k = re.sub(r"\d+", "N", v["what"])[:60]
             if k not in seen:
                 seen.add(k)
                 uniq.append(v)
